@@ -7,7 +7,7 @@ PROPS["C05"] = {
     "technique": "rapid-generated layer histories over package-list files run through Scanner.ScanContainer; brute-force attribution oracle computed from an independent OCI overlay reference model",
     "level_text": "Generated histories (each layer writes, rewrites, deletes, deletes the parent directory of, re-creates or ignores each package-list file; history-only layers interleaved) are built into real images (go-containerregistry), loaded with FromV1Image and scanned with ScanContainer using a harness extractor. For every reported package the expected origin is computed by brute force from the reference overlay model (presence in every view), and index, diff ID and build command are compared.",
     "level_note": "Trusted: harness/internal/overlay (shared with C04, deliberately: a wrong intermediate view is one root cause and is reported by C04) and harness/internal/tarimg; go-containerregistry builds the image faithfully. While a C04 finding that changes intermediate views is listed as known, this generator stays clear of the corresponding shapes (counted under excluded_known).",
-    "rule": "rapid-generated histories: 1..3 package-list files (two sharing a directory) x 1..6 tar-backed layers x per layer and file one of {ignore, write 0..3 packages from a pool of 6, delete by whiteout, delete by whiting out the parent directory} x 0..2 history-only layers before any layer and at the end; 1/8 of the cases add a second extractor on one file, 1/8 packages without purl; non-trivial = >=3 chain layers and >=1 reported package whose origin is neither the first nor the last layer; distinct by hash of the case JSON",
+    "rule": "rapid-generated histories (image loaded with the default requirer or with path requirers naming the package lists relatively / slash-rooted / both): 1..3 package-list files (two sharing a directory) x 1..6 tar-backed layers x per layer and file one of {ignore, write 0..3 packages from a pool of 6, delete by whiteout, delete by whiting out the parent directory} x 0..2 history-only layers before any layer and at the end; 1/8 of the cases add a second extractor on one file, 1/8 packages without purl; non-trivial = >=3 chain layers and >=1 reported package whose origin is neither the first nor the last layer; distinct by hash of the case JSON",
     "assumptions": ["same package = same package URL at the same location", "an empty (history-only) layer never changes a view, so it can never be an origin"],
     "legs": [{"fam": "layerfam", "run": "^TestC05$"}],
     "timeout": {"quick": 900, "thorough": 3000},
